@@ -104,7 +104,10 @@ func (b *Base128Encoder) Encode(src []byte) []byte {
 		whichByte++
 	}
 
-	dst = append(dst, bufByte)
+	if whichByte != 1 {
+		// only a partial group leaves pending bits to flush
+		dst = append(dst, bufByte)
+	}
 	dst = escape128(dst)
 	return dst
 }
